@@ -519,6 +519,12 @@ func (db *DB) loadIndexFromDataFiles(fileIds []uint32, nonMergeFileId uint32) er
 			logRecord, pos, err := reader.NextLogRecord()
 			if err != nil {
 				if err == io.EOF {
+					// 活跃文件末尾存在写入中断留下的不完整记录时将其丢弃, 保证后续追加的数据可被正常读取
+					if dataFile == db.activeFile && reader.Position() < dataFile.Size() {
+						if err := dataFile.Truncate(reader.Position()); err != nil {
+							return err
+						}
+					}
 					break
 				}
 				return err
